@@ -349,17 +349,20 @@ where
     fn eq(&self, other: &Self) -> bool {
         self.version == other.version
             && self.status == other.status
-            && self.headers.iter().zip(other.headers.iter()).all(
-                |((lhs_name, lhs_values), (rhs_name, rhs_values))| {
-                    lhs_name == rhs_name
-                        && lhs_values
-                            .iter()
-                            .zip(rhs_values.iter())
-                            .all(|(lhs, rhs)| lhs == rhs)
-                },
-            )
+            && headers_eq(&self.headers, &other.headers)
             && self.body == other.body
     }
+}
+
+/// `Headers` is a hash map without an equality of its own: two sets of headers are equal when
+/// they have the same names, each with the same values in the same order, whatever the order
+/// in which the two maps happen to iterate.
+fn headers_eq(lhs: &Headers, rhs: &Headers) -> bool {
+    lhs.names().count() == rhs.names().count()
+        && lhs.iter().all(|(name, lhs_values)| {
+            rhs.get(name)
+                .is_some_and(|rhs_values| lhs_values.iter().eq(rhs_values.iter()))
+        })
 }
 
 impl<Body> Eq for Response<Body> where Body: Eq {}
@@ -440,5 +443,41 @@ mod header_serde {
         }
 
         Ok(headers)
+    }
+}
+
+#[cfg(test)]
+mod tests {
+    use crate::testing::ResponseBuilder;
+
+    #[test]
+    fn responses_with_the_same_headers_are_equal() {
+        let names = ["a", "b", "c", "d", "e", "f", "g", "h"];
+        let build = |names: &[&str]| {
+            let mut response = ResponseBuilder::ok().body("body").build();
+            for name in names {
+                response.append_header(*name, "1");
+                response.append_header(*name, "2");
+            }
+            response
+        };
+        let reversed: Vec<_> = names.iter().rev().copied().collect();
+
+        assert_eq!(build(&names), build(&reversed));
+    }
+
+    #[test]
+    fn responses_with_different_headers_are_not_equal() {
+        let plain = ResponseBuilder::ok().body("body").build();
+        let with_header = ResponseBuilder::ok().header("a", "1").body("body").build();
+        let other_value = ResponseBuilder::ok().header("a", "2").body("body").build();
+        let mut more_values = with_header.clone();
+        more_values.append_header("a", "2");
+
+        assert_ne!(plain, with_header);
+        assert_ne!(with_header, plain);
+        assert_ne!(with_header, other_value);
+        assert_ne!(with_header, more_values);
+        assert_ne!(more_values, with_header);
     }
 }
